@@ -19,11 +19,11 @@ RULE = ("Hypothesis-generated combine tasks in a package of depth 0-3 over 1-5 d
         "with a planted non-link entry the run exits 1 with the conflict diagnostic and the planted tree is unchanged. "
         "Non-trivial = combine and >=1 dep in different packages of different depth, or a later run that moved a link. "
         "Distinct = SHA-1 of case JSON."
-        " In a third of the cases the dependency names are variations of one stem (out, out-tmp, out_tmp, tmp-out, out-new, out-old, out-bak, out-lock, out-1, _out, out_ ...), listed in a generated order.")
+        " In a third of the cases the dependency names are variations of one stem (out, out-tmp, out_tmp, tmp-out, out-new, out-old, out-bak, out-lock, out-1, _out, out_ ...), listed in a generated order. An entry may also be planted as a dangling link of the form Conductor makes (its target version is gone).")
 ASSUMPTIONS = ["nothing is demanded for deps whose output directory is empty or absent (the statement excludes them)",
                "git disabled: the cached version of an experiment is its newest recorded one"]
 ESSENTIAL = ["cross_depth", "relink_new_version", "empty_dep_output", "planted_file", "planted_dir", "planted_emptydir",
-             "group_dep", "combine_dep", "cached_rerun", "depth3", "entry_names_with_temp_file_affixes"]
+             "group_dep", "combine_dep", "cached_rerun", "depth3", "entry_names_with_temp_file_affixes", "planted_dangling_link"]
 TECHNIQUE = "property-based testing (Hypothesis) under the virtual kernel; realpath-equality oracle against the directories recorded at spawn"
 LEVEL_TEXT = "Randomised search over combine layouts and run histories; link targets are compared by realpath with the directories the deps actually received."
 LEVEL_NOTE = "Trusted: vf/kernel.py spawn records and file materialisation."
@@ -72,7 +72,9 @@ def _case(draw, tier):
     hist = []
     for r in range(nrun):
         hist.append({"flags": draw(st.sampled_from([[], [], ["again"]])),
-                     "plant": draw(st.sampled_from([None] * 5 + ["file", "emptydir", "dir"])),
+                     # dangling_link: a link as Conductor makes them whose target is gone (the version it pointed to was
+                     # garbage-collected, or an interrupted `cond clean` removed it first): still a link Conductor made
+                     "plant": draw(st.sampled_from([None] * 5 + ["file", "emptydir", "dir", "dangling_link", "dangling_link"])),
                      "plant_dep": draw(st.sampled_from(order))})
     seeded = {}
     for i, t in enumerate(tasks):
@@ -138,7 +140,11 @@ def _run(case, root):
                 os.unlink(p)
             if not os.path.lexists(p):
                 os.makedirs(cout, exist_ok=True)
-                if inv["plant"] == "file":
+                if inv["plant"] == "dangling_link":
+                    os.symlink(os.path.join("..", "%s.task.1" % dep["name"]), p)
+                    labels.add("planted_dangling_link")
+                    inv = dict(inv, plant=None)
+                elif inv["plant"] == "file":
                     with open(p, "w") as f:
                         f.write("user file")
                 elif inv["plant"] == "emptydir":
@@ -147,8 +153,9 @@ def _run(case, root):
                     os.makedirs(os.path.join(p, "inner"))
                     with open(os.path.join(p, "inner", "keep.txt"), "w") as f:
                         f.write("keep")
-                planted = (p, trees.snapshot(p) if os.path.isdir(p) else open(p).read(), inv["plant_dep"])
-                labels.add("planted_" + inv["plant"])
+                if inv["plant"]:
+                    planted = (p, trees.snapshot(p) if os.path.isdir(p) else open(p).read(), inv["plant_dep"])
+                    labels.add("planted_" + inv["plant"])
         rows_before = projgen.read_rows(root)
         newest = {}
         for t, ts, _, _ in rows_before:
